@@ -617,13 +617,28 @@ pub fn run_workload(sub: u64, only_leg: Option<&str>, acc: &mut Acc, ctx: &Ctx, 
     }
 
     // ---- invalid arguments --------------------------------------------------------
-    if want("invalid-args") && rng.chance(1, 3) {
-        let bad: [(&str, Vec<&str>); 5] = [
+    if want("invalid-args") && rng.chance(1, 2) {
+        let bad: [(&str, Vec<&str>); 19] = [
             ("invalid-regex", vec!["foo(", "w"]),
             ("invalid-glob", vec!["-g", "{a", "foo", "w"]),
             ("invalid-encoding", vec!["-E", "no-such-encoding", "foo", "w"]),
             ("invalid-type", vec!["-t", "nosuchtype", "foo", "w"]),
             ("invalid-flag", vec!["--no-such-flag", "foo", "w"]),
+            // the same kinds of mistakes through other routes and combinations
+            ("invalid-regex", vec!["-e", "foo", "-e", "bar(", "w"]),
+            ("invalid-regex", vec!["-e", "bar\nbaz", "w"]),
+            ("invalid-regex", vec!["-F", "-e", "zzz", "-e", "bar\nbaz", "w"]),
+            ("invalid-regex", vec!["-F", "-e", "bar\nbaz", "-e", "zzz", "w"]),
+            ("invalid-regex", vec!["--crlf", "-F", "-e", "zzz", "-e", "bar\rbaz", "w"]),
+            ("invalid-regex", vec!["-w", "foo)", "w"]),
+            ("invalid-glob", vec!["--iglob", "{a", "foo", "w"]),
+            ("invalid-glob", vec!["--pre-glob", "{a", "--pre", "cat", "foo", "w"]),
+            ("invalid-type", vec!["-T", "nosuchtype", "foo", "w"]),
+            ("invalid-type", vec!["--type-add", "broken", "foo", "w"]),
+            ("invalid-flag", vec!["--max-count=abc", "foo", "w"]),
+            ("invalid-flag", vec!["--sort=bogus", "foo", "w"]),
+            ("invalid-flag", vec!["--max-filesize=1Q", "foo", "w"]),
+            ("invalid-flag", vec!["--colors=bogus", "foo", "w"]),
         ];
         let (name, extra) = &bad[rng.below(bad.len())];
         let spec = RunSpec { args: ["--no-config", "--color=never", &format!("-j{}", w.threads)].iter().map(|s| s.to_string()).chain(extra.iter().map(|s| s.to_string())).collect(), plan: vec!["noop=1".into()], sched: w.sched.clone(), ..RunSpec::default() };
